@@ -22,6 +22,11 @@ CLAIMED = {
         note=PROOF_NOTE + "parser acceptance itself is full_moon's (assumed `construct parses iff an enabling dialect is on`, validated on the matrix only); translator for the std headers is regex-based and trusted.",
         technique="Lean 4 theorems (C16_union, C16_accepts, C16_builtin by decide over a regenerated table) + correspondence with lua_version() and full_moon::parse_fallible",
         design="§4 C16"),
+    "C18": dict(
+        text="Machine-checked proofs over a validator model of the worker pool: any permutation of the workers' counter additions yields the same totals and exit status (C18_totals, C18_exit), the summary of an accepted trace is the sum of all additions (C18_summary), and everything an accepted trace writes is the in-order concatenation of non-overlapping single-thread lock spans (C18_blocks, C18_span_single_thread). The model is tied to the binary by trace validation (hook events replayed through the model's step function on every run) and by comparing multi-threaded with sequential output.",
+        note=PROOF_NOTE + "atomicity of fetch_add, mutual exclusion of the stdout lock and correct placement of the hook events are assumptions; schedules are those reached by repeated execution (under load in thorough).",
+        technique="Lean 4 theorems over a trace-validator model (permutation invariance of totals, block structure of accepted traces) + trace validation of the real binary + output comparison across thread counts",
+        design="§4 C18"),
     "C19": dict(
         text="Machine-checked proof that the model of the CLI's counting and exit logic exits 0 iff no error / parse error / unopenable file / library error / crashed worker occurred and (no warning or --allow-warnings), that the printed totals equal the per-severity counts of printed diagnostics plus unopenable files, that Allow diagnostics contribute nothing, and that exclusion is exactly the documented filter; tied to the real binary by runs over forced sign patterns x flags x styles x severity configs, including provoked worker crashes.",
         note=PROOF_NOTE + "globset matching is abstract (file names chosen so that the pattern's verdict is known); per-file outcomes are observed by single-file runs of the same binary.",
